@@ -294,8 +294,7 @@ Qed.
 
 (* the RFC's "same scheme under the compatibility option" test in the model's terms *)
 Lemma same_scheme_test compat rel sb : nonul sb = true ->
-  (negb (negb compat) && match scheme rel, Some sb with
-                         | Some a, Some b => text_eqb a b | _, _ => false end)
+  (negb (negb compat) && match scheme rel with Some a => text_eqb a sb | None => false end)
   = compat && is_some (scheme rel) && range_eqb (Some sb) (scheme rel).
 Proof.
   intros Hn. rewrite negb_involutive. destruct compat; [|reflexivity]. cbn [andb].
@@ -410,4 +409,230 @@ Proof.
     + cbn [fixamb_p fixtrail_p negb]. unfold path_text_of. cbn [orb andb negb app].
       unfold guard_path. unfold join_text in Hcorner |- *. cbn [path_pieces concat app head_is starts_with] in Hcorner |- *.
       rewrite N.eqb_sym in Hcorner. rewrite Hcorner. reflexivity.
+Qed.
+
+(* ---------------------------------------------------------------- texts of well-formed host-less paths *)
+Lemma rootless_text segs : forallb noslash segs = true -> first_nonempty segs = true -> segs <> [] ->
+  exists c t, join_text segs = c :: t /\ (c =? 47) = false.
+Proof.
+  intros Hs Hf Hne. destruct segs as [|s0 r0]; [congruence|].
+  cbn [forallb] in Hs. apply andb_true_iff in Hs. destruct Hs as [Hs0 _].
+  destruct s0 as [|c0 s0']; [discriminate Hf|].
+  apply noslash_cons in Hs0. destruct Hs0 as [Hc0 _]. apply N.eqb_neq in Hc0.
+  exists c0. unfold join_text. destruct r0; cbn [path_pieces concat app]; eexists; (split; [reflexivity|exact Hc0]).
+Qed.
+
+Lemma forallb_removelast {A} (f : A -> bool) l : forallb f l = true -> forallb f (removelast l) = true.
+Proof.
+  induction l as [|x l IH]; intros H; [reflexivity|].
+  cbn [forallb] in H. apply andb_true_iff in H. destruct H as [Hx Hl].
+  destruct l as [|y l]; [reflexivity|].
+  change (removelast (x :: y :: l)) with (x :: removelast (y :: l)). cbn [forallb].
+  rewrite Hx. exact (IH Hl).
+Qed.
+
+(* the base's own path, kept when the reference has an empty path, needs no guard *)
+Lemma path_empty_ref u : wf u = true ->
+  path_text_of (absolutePath u) (is_host_set u) (fixtrail_p (is_host_set u) (pathSegs u))
+  = guard_path (is_host_set u) (path_text u).
+Proof.
+  intros Hw. unfold path_text, guard_path, fixtrail_p.
+  destruct (is_host_set u) eqn:Hh; [reflexivity|]. cbn [negb].
+  pose proof (wf_noslash u Hw) as Hs.
+  destruct (absolutePath u) eqn:Ha.
+  - pose proof (wf_abs_nodslash u Hw Hh Ha) as Hd.
+    destruct (pathSegs u) as [|[|c s] [|x r]]; try reflexivity; try discriminate Hd.
+    + cbn [forallb] in Hs. apply andb_true_iff in Hs. destruct Hs as [Hc _].
+      apply noslash_cons in Hc. destruct Hc as [Hc _]. apply N.eqb_neq in Hc. rewrite N.eqb_sym in Hc.
+      unfold path_text_of, join_text. cbn [orb app path_pieces concat starts_with]. rewrite Hc.
+      rewrite andb_false_r. reflexivity.
+    + cbn [forallb] in Hs. apply andb_true_iff in Hs. destruct Hs as [Hc _].
+      apply noslash_cons in Hc. destruct Hc as [Hc _]. apply N.eqb_neq in Hc. rewrite N.eqb_sym in Hc.
+      unfold path_text_of, join_text. cbn [orb app path_pieces concat starts_with]. rewrite Hc.
+      rewrite andb_false_r. reflexivity.
+  - pose proof (wf_rootless_first u Hw Hh Ha) as Hf.
+    destruct (pathSegs u) as [|s0 r0] eqn:Ep; [reflexivity|].
+    destruct (rootless_text (s0 :: r0) Hs Hf ltac:(discriminate)) as (c & t & Et & Hc).
+    assert (path_text_of false false (s0 :: r0) = c :: t) as Ept by (rewrite <- Et; reflexivity).
+    rewrite Ept. cbn [starts_with]. rewrite N.eqb_sym in Hc. rewrite Hc. cbn [andb].
+    rewrite <- Ept. destruct s0 as [|c0 s0']; [discriminate Hf|]. destruct r0; reflexivity.
+Qed.
+
+Lemma corner_use (raw cleaned : text) :
+  match raw with [] => false | _ => negb (head_is 47 raw) && head_is 47 cleaned end = false ->
+  raw <> [] -> head_is 47 raw = false -> head_is 47 cleaned = false.
+Proof.
+  intros H Hne Hh. destruct raw as [|c r]; [congruence|]. rewrite Hh in H. exact H.
+Qed.
+
+(* ---------------------------------------------------------------- 5.2.2 with the scheme decision taken *)
+Definition transform_rs (rs : option text) (B R : five) : five :=
+  match rs with
+  | Some s => mkFive (Some s) (f_auth R) (rds_keep_kind (f_path R)) (f_query R) (f_frag R)
+  | None =>
+    match f_auth R with
+    | Some a => mkFive (f_scheme B) (Some a) (rds_keep_kind (f_path R)) (f_query R) (f_frag R)
+    | None =>
+      match f_path R with
+      | [] => mkFive (f_scheme B) (f_auth B) (f_path B)
+                     (match f_query R with Some q => Some q | None => f_query B end) (f_frag R)
+      | _ =>
+        if head_is 47 (f_path R)
+        then mkFive (f_scheme B) (f_auth B) (rds_keep_kind (f_path R)) (f_query R) (f_frag R)
+        else mkFive (f_scheme B) (f_auth B)
+                    (rds_keep_kind (merge (is_some_t (f_auth B)) (f_path B) (f_path R))) (f_query R) (f_frag R)
+      end
+    end
+  end.
+
+Definition corner_rs (keeps : bool) (t B R : five) : bool :=
+  match f_auth t with
+  | Some _ => false
+  | None =>
+    let raw :=
+      if keeps || is_some_t (f_auth R) then f_path R
+      else match f_path R with
+           | [] => []
+           | _ => if head_is 47 (f_path R) then f_path R
+                  else merge (is_some_t (f_auth B)) (f_path B) (f_path R)
+           end in
+    match raw with
+    | [] => false
+    | _ => negb (head_is 47 raw) && head_is 47 (f_path t)
+    end
+  end.
+
+Lemma transform_eq strict B R :
+  transform strict B R
+  = transform_rs (if negb strict && match f_scheme R, f_scheme B with
+                                    | Some a, Some b => text_eqb a b | _, _ => false end
+                  then None else f_scheme R) B R.
+Proof. reflexivity. Qed.
+
+Lemma corner_eq strict B R :
+  unspecified_corner strict B R
+  = corner_rs (is_some_t (f_scheme R)
+               && negb (negb strict && match f_scheme R, f_scheme B with
+                                       | Some a, Some b => text_eqb a b | _, _ => false end))
+              (transform strict B R) B R.
+Proof. reflexivity. Qed.
+
+(* ---------------------------------------------------------------- the two halves of the theorem *)
+Section Halves.
+  Variables (compat : bool) (rel base : uri) (sb : text).
+  Hypothesis (Hwr : wf rel = true) (Hwb : wf base = true) (Hsb : scheme base = Some sb).
+
+  Lemma resolve_keeps sr : scheme rel = Some sr -> keeps_scheme compat (Some sb) rel = true ->
+    corner_rs true (transform_rs (Some sr) (five_of_uri base) (five_of_uri rel))
+              (five_of_uri base) (five_of_uri rel) = false ->
+    five_of_uri (snd (add_base compat rel base))
+    = guard_slashes (transform_rs (Some sr) (five_of_uri base) (five_of_uri rel)).
+  Proof.
+    intros Hsr Hk Hc. rewrite (model_keeps compat rel base sb Hsb Hk). rewrite guard_slashes_path.
+    unfold transform_rs, corner_rs in *. cbn [five_of_uri f_scheme f_auth f_path f_query f_frag orb] in *.
+    rewrite auth_text_some. rewrite Hsr. f_equal.
+    apply path_core.
+    - exact (wf_noslash rel Hwr).
+    - exact (wf_host_abs rel Hwr).
+    - exact (wf_rootless_first rel Hwr).
+    - intros Hh Hne Hh47. fold (path_text rel) in *.
+      assert (auth_text rel = None) as Ea by (unfold auth_text; rewrite Hh; reflexivity).
+      rewrite Ea in Hc. exact (corner_use _ _ Hc Hne Hh47).
+  Qed.
+
+  Lemma resolve_nokeeps : keeps_scheme compat (Some sb) rel = false ->
+    corner_rs false (transform_rs None (five_of_uri base) (five_of_uri rel))
+              (five_of_uri base) (five_of_uri rel) = false ->
+    five_of_uri (snd (add_base compat rel base))
+    = guard_slashes (transform_rs None (five_of_uri base) (five_of_uri rel)).
+  Proof.
+    intros Hk Hc. rewrite guard_slashes_path.
+    unfold transform_rs, corner_rs in *. cbn [five_of_uri f_scheme f_auth f_path f_query f_frag orb] in *.
+    pose proof (wf_noslash rel Hwr) as Hsr. pose proof (wf_noslash base Hwb) as Hsbs.
+    destruct (is_host_set rel) eqn:Hh.
+    - (* the reference has an authority *)
+      rewrite (model_relhost compat rel base sb Hsb Hk Hh).
+      pose proof (auth_text_some rel) as Ea. rewrite Hh in Ea.
+      destruct (auth_text rel) as [au|] eqn:Eau; [|discriminate Ea].
+      cbn [f_scheme f_auth f_path f_query f_frag is_some_t]. rewrite Hsb. f_equal.
+      pose proof (wf_host_abs rel Hwr Hh) as Ha. rewrite Hh, Ha.
+      rewrite <- (fixamb_host (rds_p true false (pathSegs rel))).
+      fold (path_text rel). unfold path_text. rewrite Hh, Ha.
+      apply path_core; [exact Hsr|reflexivity|discriminate|discriminate].
+    - assert (auth_text rel = None) as Ea by (unfold auth_text; rewrite Hh; reflexivity).
+      rewrite Ea in *. cbn [is_some_t] in Hc.
+      destruct (absolutePath rel) eqn:Ha.
+      + (* absolute-path reference *)
+        rewrite (model_abs compat rel base sb Hsb Hk Hh Ha). cbv zeta.
+        assert (exists t, path_text rel = 47 :: t) as [t Et].
+        { unfold path_text. rewrite Hh, Ha. unfold path_text_of. cbn [orb app]. eexists. reflexivity. }
+        rewrite Et. cbn [head_is]. rewrite N.eqb_refl.
+        cbn [f_scheme f_auth f_path f_query f_frag]. rewrite Hsb, auth_text_some. f_equal.
+        rewrite <- Et.
+        set (hb := is_host_set base).
+        set (segs' := if hb then match pathSegs rel with [] => [[]] | _ :: _ => pathSegs rel end else pathSegs rel).
+        assert (path_text rel = path_text_of (negb hb) hb segs') as Eraw.
+        { unfold path_text. rewrite Hh, Ha. subst segs'. destruct hb; [|reflexivity].
+          destruct (pathSegs rel); reflexivity. }
+        rewrite Eraw. apply path_core.
+        * subst segs'. destruct hb; [|exact Hsr]. destruct (pathSegs rel); [reflexivity|exact Hsr].
+        * intros E. rewrite E. reflexivity.
+        * intros E E2. rewrite E in E2. discriminate E2.
+        * intros E _ Hh47. rewrite <- Eraw, Et in Hh47. cbn [head_is] in Hh47. rewrite N.eqb_refl in Hh47. discriminate Hh47.
+      + destruct (pathSegs rel) as [|r1 rs] eqn:Ep.
+        * (* empty path *)
+          rewrite (model_empty compat rel base sb Hsb Hk Hh Ep Ha).
+          assert (path_text rel = []) as Et by (unfold path_text; rewrite Hh, Ha, Ep; reflexivity).
+          rewrite Et. cbn [f_scheme f_auth f_path f_query f_frag]. rewrite Hsb, auth_text_some. f_equal.
+          apply path_empty_ref. exact Hwb.
+        * (* merge *)
+          assert (pathSegs rel <> []) as Hne by (rewrite Ep; discriminate). rewrite <- Ep in Hsr.
+          rewrite (model_merge compat rel base sb Hsb Hk Hh Ha Hne).
+          pose proof (wf_rootless_first rel Hwr Hh Ha) as Hf.
+          destruct (rootless_text (pathSegs rel) Hsr Hf Hne) as (c & t & Et & Hc47).
+          assert (path_text rel = join_text (pathSegs rel)) as Ept
+            by (unfold path_text, path_text_of; rewrite Hh, Ha, andb_false_r; reflexivity).
+          rewrite Ept in *. rewrite Et in Hc |- *. cbn [head_is] in Hc |- *. rewrite Hc47 in Hc |- *.
+          rewrite <- Et in Hc |- *.
+          cbn [f_scheme f_auth f_path f_query f_frag] in Hc |- *. rewrite Hsb, auth_text_some in *. f_equal.
+          unfold path_text in Hc |- *.
+          rewrite <- (merge_text (absolutePath base) (is_host_set base) (pathSegs base) (pathSegs rel) Hne Hsbs) in Hc |- *.
+          apply path_core.
+          -- rewrite forallb_app. rewrite (forallb_removelast _ _ Hsbs), Hsr. reflexivity.
+          -- exact (wf_host_abs base Hwb).
+          -- intros Hhb Hab. pose proof (wf_rootless_first base Hwb Hhb Hab) as Hfb.
+             destruct (pathSegs base) as [|b1 [|b2 bs]]; [exact Hf|exact Hf|].
+             destruct b1; [discriminate Hfb|reflexivity].
+          -- intros Hhb Hrne Hh47.
+             assert (auth_text base = None) as Eab by (unfold auth_text; rewrite Hhb; reflexivity).
+             rewrite Eab in Hc. rewrite Hhb in *. exact (corner_use _ _ Hc Hrne Hh47).
+  Qed.
+End Halves.
+
+(* ---------------------------------------------------------------- the resolution theorem *)
+Theorem resolve_five compat rel base :
+  wf rel = true -> wf base = true -> scheme base <> None -> corner compat rel base = false ->
+  fst (add_base compat rel base) = URI_SUCCESS
+  /\ five_of_uri (snd (add_base compat rel base))
+     = guard_slashes (transform (negb compat) (five_of_uri base) (five_of_uri rel)).
+Proof.
+  intros Hwr Hwb Hsb Hc. destruct (scheme base) as [sb|] eqn:Esb; [|congruence]. clear Hsb.
+  split; [exact (add_base_success compat rel base sb Esb)|].
+  pose proof (wf_scheme base sb Hwb Esb) as Hnul.
+  unfold corner in Hc. rewrite corner_eq in Hc. rewrite transform_eq in Hc |- *.
+  cbn [five_of_uri f_scheme] in Hc |- *. rewrite Esb in Hc |- *.
+  match goal with |- context [transform_rs (if ?c then None else scheme rel)] =>
+    assert (c = compat && is_some (scheme rel) && range_eqb (Some sb) (scheme rel)) as Etest
+      by exact (same_scheme_test compat rel sb Hnul);
+    rewrite Etest in Hc |- * end.
+  assert (keeps_scheme compat (Some sb) rel
+          = is_some (scheme rel) && negb (compat && is_some (scheme rel) && range_eqb (Some sb) (scheme rel)))
+    as Ek by reflexivity.
+  destruct (compat && is_some (scheme rel) && range_eqb (Some sb) (scheme rel)) eqn:Esame.
+  - rewrite andb_false_r in Ek, Hc.
+    exact (resolve_nokeeps compat rel base sb Hwr Hwb Esb Ek Hc).
+  - rewrite andb_true_r in Ek, Hc.
+    destruct (scheme rel) as [sr|] eqn:Esr.
+    + exact (resolve_keeps compat rel base sb Hwr Esb sr Esr Ek Hc).
+    + exact (resolve_nokeeps compat rel base sb Hwr Hwb Esb Ek Hc).
 Qed.
